@@ -916,6 +916,7 @@ func (c04) Gen(rng *rand.Rand, tier string, emit func(string)) {
 		}
 		one(w, g, ch)
 	}
+	c04gGen(rng, tier, emit) // the glue between the commands and the writers (c04_glue.go); last: the draws above are unchanged
 }
 
 func c04gunzip(b []byte) ([]byte, error) {
@@ -953,6 +954,9 @@ func c04frame(w string, texts map[int][]byte, nb int) []byte {
 }
 
 func (c04) Exec(line string) (string, []Fail) {
+	if strings.HasPrefix(line, "glue ") || line == "glue" {
+		return c04gExec(line) // the glue between the commands and the writers (c04_glue.go)
+	}
 	c, ok := c04parse(line)
 	if !ok {
 		return "bad-op", nil
